@@ -58,6 +58,7 @@ type Exec struct {
 	steps   int64
 	globals map[*ssa.Global]*Obj
 	pkgInit map[*ssa.Package]bool
+	pools   map[*Cell][]Value // sync.Pool contents (per pool object), see inPoolGet
 	inputs  []*T          // all symbolic input variables/applications created in this run, in order
 	inputSet map[int]bool
 	inputObjs map[string]*Obj
